@@ -51,6 +51,7 @@ type Unit struct {
 	Hashes   map[string][]uint64 `json:"h,omitempty"`     // distinctness measures: name -> hashes
 	Samples  []interface{}       `json:"samples,omitempty"`
 	Fails    []*Failure          `json:"fails,omitempty"`
+	Vec      map[string]string   `json:"vec,omitempty"`     // named observations compared across build variants and processes
 	Trouble  string              `json:"trouble,omitempty"` // machinery problem: exit 2 at the driver
 }
 
@@ -123,6 +124,14 @@ func (u *Unit) AddFail(f *Failure) {
 	if len(u.Fails) < 5 {
 		u.Fails = append(u.Fails, f)
 	}
+}
+
+// Observe records a named observation of this unit.
+func (u *Unit) Observe(key, val string) {
+	if u.Vec == nil {
+		u.Vec = map[string]string{}
+	}
+	u.Vec[key] = val
 }
 
 // Stop tells the driver that the worker ends its block early on purpose.
